@@ -247,10 +247,21 @@ def make_bank(sh_mts):
     return sh_mts
 
 
-def build_grammar(mts, mode):
+def build_grammar(mts, mode, past=False):
+    """past: the grammar has a history - after the first tree it is written as RCG files, read back with the tool's
+    reader, and extraction goes on into the objects the reader returned (a grammar that was loaded and is extended)."""
     g, lex = {}, {}
-    for mt in mts:
+    for k, mt in enumerate(mts):
         grammar.extract(build(mt), g, lex)
+        if past and k == 0 and not any('(' in w or ')' in w for w in lex):
+            dest = os.path.join(scratch(), 'past%d' % os.getpid())
+            grammaroutput.rcg(g, lex, dest, 'utf-8')
+            g, lex = grammarinput.rcg(dest, 'utf-8')
+            for ext in ('rcg', 'lex'):
+                if os.path.exists(dest + '.' + ext):
+                    os.unlink(dest + '.' + ext)
+            if len(mts) == 1:
+                grammar.extract(build(mt), g, lex)      # the loaded grammar is extended by the same tree once more
     G = g if mode is None else run_binarize(g, mode)
     return G, lex
 
@@ -270,13 +281,23 @@ def check_write(mtjs, mode_i, fmt, lig, enc):
         ''.join(tk['word'] for m in mts for tk in m.toks).encode(enc)
     except UnicodeEncodeError:
         return out, False           # the encoding cannot carry these words: not a case
+    past = sum(m.n() for m in mts) % 3 == 0
     try:
-        G, lex = build_grammar(mts, mode)
+        G, lex = build_grammar(mts, mode, past)
     except Exception as e:
         bad('exception', 'extract/binarize: %s: %s' % (type(e).__name__, e))
         return out, False
     expG = totals(G)
     explex = {w: dict(c) for w, c in lex.items()}
+    if past and mode is None:
+        # the expectation for a grammar with a history comes from the treebank, not from the object
+        from .. import lcfrs
+        eg, elex = lcfrs.ref_extract(mts + (mts if len(mts) == 1 else []))
+        want_tot = {f: {l: sum(v.values()) for l, v in lins.items()} for f, lins in eg.items()}
+        if expG != want_tot and not any('(' in w or ')' in w for w in elex):
+            bad('loaded-and-extended', 'a grammar written after the first tree, read back and extended holds %r, the treebank gives %r'
+                % ({f: l for f, l in expG.items() if want_tot.get(f) != l}, {f: l for f, l in want_tot.items() if expG.get(f) != l}))
+            return out, False
     nontriv = any(c > 1 for l in expG.values() for c in l.values()) or any(len(l) > 1 for ls in expG.values() for l in ls)
     cf = all(len(l) == 1 for ls in expG.values() for l in ls)
     dest = os.path.join(scratch(), 'g%d' % os.getpid())
